@@ -137,7 +137,7 @@ def forbidden_scan():
 
 
 # property files that belong to a property besides Props/<prop>.lean
-EXTRA_PROP_FILES = {"C06": ["C06Index"], "C02": ["C02Builder"]}
+EXTRA_PROP_FILES = {"C06": ["C06Index", "C06RefStable"], "C02": ["C02Builder", "C02Fuel"], "C20": ["C20Classes"]}
 
 
 def prop_theorems(prop):
